@@ -228,7 +228,9 @@ def atomicity(ctx, eff: Effects, f: FuncInfo, delegate=None, delegate_call=None)
 # ----------------------------------------------------------------------------- rules
 def rule_r1(ctx, an: Anchors, eff: Effects) -> None:
     rep = ctx.rep
-    targets = [(an.ctx_method("add_resource"), None, None), (an.ctx_method("add_resource_factory"), None, None)]
+    # add_teardown_callback is the step of add_resource that schedules the callback: it must be
+    # atomic itself (validate first, append afterwards)
+    targets = [(an.ctx_method("add_resource"), None, None), (an.ctx_method("add_resource_factory"), None, None), (an.ctx_method("add_teardown_callback"), None, None)]
     # the component-context wrappers
     for name in ("add_resource", "add_resource_factory"):
         w = an.ComponentContext.methods.get(name)
